@@ -19,6 +19,7 @@ import SSEPyVerif.Proofs.Schemes.SSE2
 import SSEPyVerif.Proofs.Schemes.PiPtr
 import SSEPyVerif.Proofs.Schemes.ANSS16
 import SSEPyVerif.Proofs.Schemes.CT14
+import SSEPyVerif.Proofs.Schemes.SSE1
 namespace SSEPy.C01
 open SSEPy.Sch SSEPy.Sch.Chain
 
@@ -104,6 +105,26 @@ theorem CT14.search_stored (raw : RawCfg) (cfg : CT14Cfg) (hcfg : CT14.cfgBuild 
 /-- the greedy decomposition covers the list exactly once, in order (non-vacuity of `chunkAt` / `scan`) -/
 theorem CT14.decomposition_covers (ids : List Bytes) (J : Nat) (h : ids.length < 2 ^ J) : CT14.scan ids J = ids :=
   CT14.scan_all ids J h
+
+/-- SSE-1 (schemes/CGKO06/SSE1): per keyword a linked list of encrypted nodes at the addresses ψ_K1(ctr), a look-up table entry
+    that hides the first address and key.  That node addresses never collide is PROVED here from the C15 theorems (ψ is the
+    bit-level format-preserving PRP on `log2_s`-bit counters and can be inverted) — no collision hypothesis on ψ.
+    Remaining hypotheses: HMAC digests have 20 bytes and the AES block function is invertible (`LeafLaws`); the array has
+    at least 3 cells (`2 ≤ log2_s`); no key-sized draw is all zero (it would read as the list terminator); table labels of
+    different keywords differ (`GammaInj`: π is a permutation too) and no random filler key equals this keyword's label. -/
+theorem SSE1.search_stored (raw : RawCfg) (cfg : SSE1Cfg) (hcfg : SSE1.cfgBuild raw = .ok cfg) (lv : Leaves)
+    (hl : LeafLaws lv) (h2 : 2 ≤ cfg.log2s) (K1 K2 K3 K4 : Bytes) (db : DB) (t t' : Tape) (edb : SSE1EDB)
+    (hs : SSE1.setup cfg lv [K1, K2, K3, K4] db t = .ok (edb, t')) (hk : SSE1.KeysGood cfg t)
+    (hidl : ∀ p ∈ db, ∀ x ∈ p.2, x.length = cfg.idSize.toNat) (hkeys : (db.map (·.1)).Nodup)
+    (hg : SSE1.GammaInj cfg lv K3 db) (w : Bytes) (ids : List Bytes) (hm : (w, ids) ∈ db)
+    (hsz : ids.length ≤ cfg.s.toNat)
+    (hfresh : ∀ g, SSE1.piBytes cfg lv K3 w = .ok g → ∀ b, Draw.bytes b ∈ t → b ≠ g) :
+    ∃ tk, SSE1.token cfg lv [K1, K2, K3, K4] w = .ok tk ∧ SSE1.search cfg lv edb tk = .ok ids := by
+  obtain ⟨hlb, hplain⟩ := SSE1.cfgBuild_ok cfg raw hcfg
+  exact SSE1.search_present cfg lv
+    (fun key iv msg c hiv he => ske_dec_enc lv hl cfg.ske1 hplain key iv msg c hiv he) hlb K1 K2 K3 K4 db t t' edb hs
+    (SSE1.psiInj_of_leaves cfg lv hl.hmac_len h2 K1 db.total) (SSE1.psiLen_of_leaves cfg lv hl.hmac_len h2 K1)
+    hk hidl hkeys hg w ids hm hsz hfresh
 
 /-- SSE-2 (schemes/CGKO06/SSE2): the hypotheses are about this run's PRP values — the addresses of the stored postings
     are pairwise distinct and the address one past a list's end is not a stored address (both follow from the PRP being a
